@@ -5,7 +5,7 @@
 EXTENDS Notes, IOUtils
 Tr == ndJsonDeserialize(IOEnv.TRACE)
 VARIABLE l
-TInit == l = 1 /\ doc = [ev |-> <<>>, heads |-> <<>>, toc |-> FALSE, tocr |-> FALSE, table |-> FALSE, nest |-> "plain", nested |-> FALSE]
+TInit == l = 1 /\ doc = [ev |-> <<>>, heads |-> <<>>, toc |-> FALSE, tocr |-> FALSE, table |-> FALSE, nest |-> "plain", nested |-> FALSE, base |-> 0]
 \* observed: calls = <<kind, shown, hasid>>, entries[kind] = <<shown id, backref or "">>
 Renaming(exp, obs) ==       \* obs is exp with numbers renamed injectively (identity when anchors are not random)
   /\ Len(exp) = Len(obs)
